@@ -28,11 +28,26 @@ def rule_prefix_default(rep: Report, repo: Repo, rule: str) -> None:
                    "per-input settings copy; a lone file gets no default prefix")
     fn = repo.func("cminx", "document")
     src = {norm(n.targets[0]): norm(n.value) for n in walk_no_nested(fn) if isinstance(n, ast.Assign) and len(n.targets) == 1}
-    lde = next((k for k, v in src.items() if v == "os.path.basename(os.path.normpath(input_file))"), None)
-    rep.check(lde is not None, rule, "cminx:document", "last_dir_element = basename(normpath(input_file))",
+    BASE = "os.path.basename(os.path.normpath(input_file))"
+    lde = next((k for k, v in src.items() if v == BASE), None)
+    # accepted forms: prefix = prefix if prefix is not None else <base>   /   if prefix is None: prefix = <base>
+    def is_base(txt):
+        return txt == BASE or (lde is not None and txt == lde)
+    ok = False
+    val = src.get("prefix")
+    if val is not None:
+        m1 = [b for b in (BASE, lde) if b and val in (f"prefix if prefix is not None else {b}", f"{b} if prefix is None else prefix")]
+        ok = bool(m1)
+    if not ok:
+        from ..model import guards_of
+        for n in walk_no_nested(fn):
+            if isinstance(n, ast.Assign) and norm(n.targets[0]) == "prefix" and is_base(norm(n.value)):
+                gs = guards_of(fn, n, repo.module("cminx").parents)
+                ok = any((norm(g.test) == "prefix is None" and g.polarity) or (norm(g.test) == "prefix is not None" and not g.polarity)
+                         for g in gs)
+    rep.check(lde is not None or ok, rule, "cminx:document", "default prefix = basename(normpath(input_file))",
               "the default prefix is not the input directory's name", witness="cminx -r path/to/tree")
-    ok = lde is not None and src.get("prefix") in (f"prefix if prefix is not None else {lde}", f"{lde} if prefix is None else prefix")
-    rep.check(ok, rule, "cminx:document", f"prefix = {src.get('prefix')}", "an explicit prefix does not override the default (or vice versa)",
+    rep.check(ok, rule, "cminx:document", f"prefix defaulting: {val}", "an explicit prefix does not override the default (or vice versa)",
               witness="cminx -p pre -r tree")
     rep.check(src.get("new_settings.rst.prefix") == "prefix", rule, "cminx:document", "new_settings.rst.prefix = prefix",
               "the effective prefix is not handed to document_single_file through the settings copy")
